@@ -43,16 +43,24 @@
 (*   "shared_derived"      - (facet 5, Siblings) the conditioned copies of *)
 (*                           one conditional object share what they derive *)
 (*                           from their parameters for sampling            *)
+(*   "sync_in_density_only" - (facet 6) `sample` answers from the inner    *)
+(*                           state as it is                                *)
+(*   "last_block_skipped"  - (facet 7, Counts) many draws are computed in  *)
+(*                           blocks of B columns and the last N mod B      *)
+(*                           columns are left as the raw noise when N > B  *)
 (***************************************************************************)
 EXTENDS DiffOps
 
-CONSTANTS Facet,        \* "cases" (configuration enumeration) | "stream" (behaviours) | "reassign" (facet 4) | "siblings" (facet 5) | "firstobs" (facet 6)
+CONSTANTS Facet,        \* "cases" (configuration enumeration) | "stream" (behaviours) | "reassign" (facet 4) | "siblings" (facet 5) | "firstobs" (facet 6) | "counts" (facet 7)
           Dev,          \* "none" or a named deviation
           MaxDim,       \* Gaussian lattice: dimensions 1..MaxDim (<= 3)
           PinvMax,      \* largest 1-D node count with the rational pseudo-inverse design check (orders 0, 1)
           BigDims,      \* dimensions at the real dense/sparse threshold (diagonal forms only)
           FsDims,       \* facet 1c (structure x format x threshold side): dimensions (3 or 4)
           FsFormats,    \* facet 1c: storage formats
+          CountNs,      \* facet 7 (Counts): sample counts N
+          CountBlocks,  \* facet 7: internal block sizes B an implementation may work with
+          CountWide,    \* facet 7: FALSE = one representative per family / form x shape / bc x order, TRUE = every configuration
           MaxSteps,     \* stream facet: behaviour length
           StreamDists, StreamNs, StreamRngs
 
@@ -421,7 +429,9 @@ Theta(k, q)    == LET v == WLat(k.family, LatOf(k, q))[q]
                   IN F([i \in 1..k.dim |-> IF PassedAs(k, q) = "scalar" THEN v[1] ELSE v[i]])
 
 \* scripted base values: entry (j, i) of the (N x dim) base array (draw j, component i); all distinct
-Tok(j, i) == Q(10 * j + i, 64)
+TokMul == 10
+TokDen == 64
+Tok(j, i) == Q(TokMul * j + i, TokDen)
 BaseZ(k)  == F([j \in 1..k.N |-> [i \in 1..k.dim |-> Tok(j, i)]])
 
 \* the base request: generator, arguments (per component), size (rows = draws, columns = components)
@@ -753,6 +763,119 @@ EmitFirstObs ==
     (Emit /\ Facet = "firstobs" /\ FoWorth) => PrintT("@@CASE " \o ToJson([kind |-> "fowalk", ops |-> c.ops]) \o " @@END")
 
 \* ===========================================================================
+\*  Facet 7 : Counts - the sample count N across the block sizes an implementation may work with internally
+\* ===========================================================================
+\* sample(N) returns N draws, one per column: column j is the image of ITS OWN j-th noise column (Gaussian-type objects:
+\* mean + L e_j; univariate families: component i of draw j = transformed base value (j, i)) - for EVERY N, whatever block size
+\* B an implementation uses internally to bound its work space (right-hand sides handed to a solver at a time, chunks of a
+\* base generator ...).  N and B are dimensions of the configuration; the result is modelled as the column map
+\*     column j  |->  index of the noise column it was computed from   ("own" = j itself, "raw" = left as the noise),
+\* kept compactly as a sequence of segments [lo, hi, src] (2500-element functions are never built).
+\*   state  c = [kind |-> "count", rep, N, B, segs, fin]
+\*     rep   a configuration of facet 1a / 1b / 2 (the object that is sampled)
+\*     segs  the columns computed so far;  fin  the call has returned
+\*   CountBlock    the next block of min(B, N - done) columns is computed, each column from its own noise column
+\*   CountFinish   nothing is left to compute: the call returns (columns never computed are what the array was
+\*                 initialised with: the raw noise)
+\* ColumnsIndependent: when the call returns the column map is the identity on 1..N (segments contiguous from 1 to N, all
+\* "own"; pointwise at the columns next to every block boundary).  Named deviation Dev = "last_block_skipped"
+\* (Sampling.dev.last_block_skipped.cfg): once N > B only whole blocks are computed, the last N mod B columns stay raw -
+\* refuted by N = 1001, B = 1000.  The terminal states emit: the representative (complete case of facet 1a, the constructor
+\* data of a field, the compact wiring table), N, the column map, and the rule of the scripted noise (column j = w_j times the
+\* (j mod M)-th unit vector, weights pairwise distinct, a few zero columns), so that every column is checkable by itself.
+CountDim(s) == CASE s = "scalar" -> 2 [] s = "vector" -> 3 [] s = "diag" -> 2 [] s = "spdiag" -> 3 [] s = "dense" -> 2 [] s = "sparse" -> 3
+CountReps ==
+    {k \in GaussConfigs : GaussValid(k) /\ (CountWide \/ (~k.scaled /\ k.mform = "vector" /\ k.dim = CountDim(k.shape)))}
+      \cup {k \in GmrfConfigs : GmrfValid(k) /\ k.wm = 1 /\ (CountWide \/ (k.sd = 2 /\ k.n = (IF k.pd = 1 THEN MaxN1 ELSE MaxN2)))}
+      \cup {k \in WiringConfigs : WiringValid(k) /\ k.N = 1
+                /\ (CountWide \/ (k.lat = 1 /\ k.dim = (IF k.family = "ModifiedHalfNormal" THEN 1 ELSE 3)
+                                              /\ k.pform = (IF k.family = "ModifiedHalfNormal" THEN "scalar" ELSE "mixed")))}
+CountInit ==
+    /\ c \in {[kind |-> "count", rep |-> k, N |-> n, B |-> b, segs |-> <<>>, fin |-> FALSE] : k \in CountReps, n \in CountNs, b \in CountBlocks}
+    /\ gpos = <<>> /\ lpos = [r \in StreamRngs |-> <<>>] /\ hist = <<>>
+CountSkips == Dev = "last_block_skipped"
+CountDone(s) == IF s.segs = <<>> THEN 0 ELSE s.segs[Len(s.segs)].hi
+\* is another block computed?
+CountMore(s) == LET rem == s.N - CountDone(s) IN rem > 0 /\ ((CountSkips /\ s.N > s.B) => rem >= s.B)
+CountBlock ==
+    /\ ~c.fin /\ CountMore(c)
+    /\ LET done == CountDone(c)
+           rem  == c.N - done
+           len  == IF rem < c.B THEN rem ELSE c.B
+       IN c' = [c EXCEPT !.segs = Append(@, [lo |-> done + 1, hi |-> done + len, src |-> "own"])]
+CountFinish ==
+    /\ ~c.fin /\ ~CountMore(c)
+    /\ LET done == CountDone(c)
+       IN c' = [c EXCEPT !.fin = TRUE,
+                         !.segs = IF done < c.N THEN Append(@, [lo |-> done + 1, hi |-> c.N, src |-> "raw"]) ELSE @]
+CountNext == (CountBlock \/ CountFinish) /\ UNCHANGED <<gpos, lpos, hist>>
+
+\* the column map at column j: j ("own"), 0 ("raw" / not covered)
+CountSrcOf(s, j) ==
+    LET S == {i \in 1..Len(s.segs) : s.segs[i].lo <= j /\ j <= s.segs[i].hi}
+    IN IF S = {} THEN 0 ELSE LET i == CHOOSE i \in S : TRUE IN IF s.segs[i].src = "own" THEN j ELSE 0
+CountProbe(s) == {j \in {1, 2, 3, s.B - 1, s.B, s.B + 1, (2 * s.B) - 1, 2 * s.B, (2 * s.B) + 1, s.N - 1, s.N} : 1 <= j /\ j <= s.N}
+ColumnsIndependent ==
+    (Facet = "counts" /\ c.fin) =>
+        /\ Len(c.segs) >= 1 /\ c.segs[1].lo = 1 /\ c.segs[Len(c.segs)].hi = c.N
+        /\ \A i \in 1..Len(c.segs) : c.segs[i].src = "own" /\ c.segs[i].lo <= c.segs[i].hi
+        /\ \A i \in 1..(Len(c.segs) - 1) : c.segs[i + 1].lo = c.segs[i].hi + 1
+        /\ \A j \in CountProbe(c) : CountSrcOf(c, j) = j
+\* non-vacuity of the bounded instance: every block size has a count below it and a count above it that is not a multiple
+ASSUME Facet = "counts" => \A b \in CountBlocks : (\E n \in CountNs : n < b) /\ (\E n \in CountNs : n > b /\ n % b # 0)
+
+\* scripted noise of the replay: noise column j (1-based) = CountW(j) x unit vector number ((j - 1) mod M) of the stacked noise
+CountWDen == 1024
+CountZMod == 211
+CountZRes == 5
+CountWNum(j) == IF j % CountZMod = CountZRes THEN 0 ELSE (IF j % 2 = 0 THEN -1 ELSE 1) * (CountWDen + j)      \* w_j = CountWNum(j) / CountWDen
+CountMaxN == CHOOSE n \in CountNs : \A m \in CountNs : m <= n
+ASSUME Facet = "counts" =>
+          LET nz == {j \in 1..CountMaxN : CountWNum(j) # 0}
+          IN /\ Cardinality({CountWNum(j) : j \in nz}) = Cardinality(nz)           \* every column is distinguishable by its weight
+             /\ (CountMaxN >= CountZRes => nz # 1..CountMaxN)                       \* some columns are zero: the bare mean
+
+\* compact wiring table: Z[j][i] = (TokMul j + i) / TokDen,  result[i][j] = a_i + b_i Z[j][i]  with post[i] = <<a_i, b_i>>
+CountPost(k, i) == <<Post(k, i, Zero), RSub(Post(k, i, One), Post(k, i, Zero))>>
+CountWiringRec(k, N) ==
+    LET kk == [k EXCEPT !.N = N]
+    IN [kind |-> "wiring", family |-> k.family, dim |-> k.dim, pform |-> k.pform, N |-> N, lat |-> k.lat,
+        params |-> [q \in 1..Len(WNames(k.family)) |-> [name |-> WNames(k.family)[q], passed |-> PassedAs(k, q), val |-> Theta(k, q)]],
+        gen |-> BaseGen(k.family), args |-> BaseArgs(kk), rows |-> N, cols |-> k.dim,
+        tok |-> [mul |-> TokMul, den |-> TokDen], post |-> [i \in 1..k.dim |-> CountPost(kk, i)]]
+\* the compact table IS the table of facet 2 (entry by entry for the first three draws and the last one), tokens pairwise distinct
+CountWiringAffine ==
+    (Facet = "counts" /\ c.rep.kind = "wiring") =>
+        LET kk == [c.rep EXCEPT !.N = c.N]
+        IN /\ c.rep.dim < TokMul
+           /\ \A i \in 1..c.rep.dim : \A j \in {j \in {1, 2, 3, c.N} : j <= c.N} :
+                  LET ab == CountPost(kk, i) IN Post(kk, i, Tok(j, i)) = RAdd(ab[1], RMul(ab[2], Tok(j, i)))
+           /\ (c.N <= 3 => WResult(kk) = F([i \in 1..c.rep.dim |-> [j \in 1..c.N |->
+                                LET ab == CountPost(kk, i) IN RAdd(ab[1], RMul(ab[2], Tok(j, i)))]]))
+
+RECURSIVE CountMerge(_)
+CountMerge(s) ==
+    IF Len(s) <= 1 THEN s
+    ELSE LET r == CountMerge(Tail(s))
+         IN IF Head(s).src = Head(r).src /\ Head(s).hi + 1 = Head(r).lo
+            THEN <<[lo |-> Head(s).lo, hi |-> Head(r).hi, src |-> Head(s).src]>> \o Tail(r)
+            ELSE <<Head(s)>> \o r
+CountRepRec(k, N) ==
+    CASE k.kind = "gauss"  -> GaussRec(k)
+      [] k.kind = "gmrf"   -> [kind |-> "gmrf", pd |-> k.pd, n |-> k.n, bc |-> k.bc, order |-> k.order, wm |-> k.wm, sd |-> k.sd,
+                               delta |-> k.sd * k.sd, dim |-> GDim(k), mean |-> GMean(k)]
+      [] k.kind = "wiring" -> CountWiringRec(k, N)
+CountBMin == CHOOSE b \in CountBlocks : \A b2 \in CountBlocks : b <= b2
+\* the expected values do not depend on B (that IS the statement): emitted once, from the run with the smallest block size
+EmitCounts ==
+    (Emit /\ Facet = "counts" /\ c.fin /\ c.B = CountBMin) =>
+        PrintT("@@CASE " \o ToJson(
+            [kind |-> "count", sub |-> c.rep.kind, N |-> c.N, colmap |-> CountMerge(c.segs),
+             noise |-> [den |-> CountWDen, zmod |-> CountZMod, zres |-> CountZRes,
+                        probe |-> {<<j, CountWNum(j)>> : j \in CountProbe(c) \cup ({CountZRes, CountZRes + CountZMod} \cap 1..c.N)}],
+             rep |-> CountRepRec(c.rep, c.N)]) \o " @@END")
+
+\* ===========================================================================
 SInit ==
     IF Facet = "cases"
     THEN /\ c \in CaseConfigs
@@ -762,8 +885,10 @@ SInit ==
          /\ gpos = <<>> /\ lpos = [r \in StreamRngs |-> <<>>] /\ hist = <<>>
     ELSE IF Facet = "siblings" THEN SibInit
     ELSE IF Facet = "firstobs" THEN FoInit
+    ELSE IF Facet = "counts" THEN CountInit
     ELSE StreamInit
 SNext == IF Facet = "cases" THEN UNCHANGED svars ELSE IF Facet = "reassign" THEN ReSampNext
-         ELSE IF Facet = "siblings" THEN SibNext ELSE IF Facet = "firstobs" THEN FoNext ELSE StreamNext
+         ELSE IF Facet = "siblings" THEN SibNext ELSE IF Facet = "firstobs" THEN FoNext
+         ELSE IF Facet = "counts" THEN CountNext ELSE StreamNext
 SSpec == SInit /\ [][SNext]_svars
 =============================================================================
